@@ -70,14 +70,15 @@ type kind struct {
 	weight int
 }
 
-// The operations of the property's quantifier. "avoid" operations are
-// broken on the pinned tree (listed findings) and get a small weight.
+// The operations of the property's quantifier with their weights in the
+// random stream. No operation is avoided: the subseq, list* and rplacd
+// findings are repaired in /repo, the open add finding is state dependent.
 var kinds = []kind{
 	{name: "list", share: shFresh, weight: 2},
 	{name: "quote", share: shFresh, weight: 1},
 	{name: "alias", share: shA, weight: 4},
 	{name: "cons", share: shA, weight: 4},
-	{name: "list*", share: shA, weight: 1}, // avoid: list* with a list as last argument
+	{name: "list*", share: shA, weight: 3},
 	{name: "append", binary: true, share: shB, weight: 5},
 	{name: "append1", share: shA, weight: 1},
 	{name: "cdr", share: shA, weight: 4},
@@ -87,8 +88,8 @@ var kinds = []kind{
 	{name: "last1", share: shA, weight: 1},
 	{name: "butlast", share: shFresh, weight: 4},
 	{name: "butlast1", share: shFresh, weight: 1},
-	{name: "subseq", share: shFresh, weight: 1},      // avoid: subseq of a list
-	{name: "subseq-noend", share: shFresh, weight: 1}, // avoid
+	{name: "subseq", share: shFresh, weight: 4},
+	{name: "subseq-noend", share: shFresh, weight: 2},
 	{name: "copy-list", share: shFresh, weight: 4},
 	{name: "reverse", share: shFresh, weight: 4},
 	{name: "remove", share: shFresh, weight: 3},
@@ -149,7 +150,7 @@ func tripleBlock() int {
 
 func nCases(tier string) int {
 	if tier == "thorough" {
-		return pairBlock() + tripleBlock() + 1500000
+		return pairBlock() + tripleBlock() + 2000000
 	}
 	return pairBlock() + 120000
 }
@@ -686,9 +687,6 @@ func (w *world) plan(op Op, kd *kind) (src string, want []int, skip string) {
 		if sameCells() {
 			return "", nil, "would be circular"
 		}
-		if len(b) == 0 && op.K%4 != 1 {
-			return "", nil, "avoided:rplacd-with-nil"
-		}
 		return setq(fmt.Sprintf("(rplacd %s %s)", A, B)), cat(a[:1], b), ""
 	case "nconc":
 		if n != 0 && sameCells() {
@@ -1012,7 +1010,7 @@ func init() {
 			"followed by <= 6 operations over 4 named lists; first block = every ordered pair of the 41 operations x 6 aliasing patterns x {exact-capacity, spare-capacity} pool x 2 selector values (exhaustive); " +
 			"thorough adds every ordered triple x 2 patterns x 2 pools; then seeded random histories (any variable as target and as either argument). " +
 			"distinct = distinct program text; non-trivial = at least one operation ran and at least two variables hold non-empty lists at the end. " +
-			"avoided (small weight, listed findings): subseq of a list, list* with a list as last argument; mapcar on an empty list is never generated (C14's concern)",
+			"never generated: mapcar and subseq on an empty list (they signal a type-error, C14's concern); nothing else is avoided",
 		N:     nCases,
 		Gen:   gen,
 		Exec:  exec,
